@@ -656,11 +656,59 @@ def use1(ctx) -> List[Ob]:
         locals_ = local_defs - params
         # closure variables of enclosing functions are defined there
         flagged = set()
+        # names that are bound nowhere: not in this function, an enclosing one, the module or the builtins
+        visible = set(dir(builtins)) | params | local_defs
+        m_ = fn.module
+        for st in m_.tree.body:
+            for x in ast.walk(st) if not isinstance(st, (ast.FunctionDef, ast.AsyncFunctionDef, ast.ClassDef)) else [st]:
+                if isinstance(x, (ast.FunctionDef, ast.AsyncFunctionDef, ast.ClassDef)):
+                    visible.add(x.name)
+                elif isinstance(x, ast.Name) and isinstance(x.ctx, ast.Store):
+                    visible.add(x.id)
+                elif isinstance(x, (ast.Import, ast.ImportFrom)):
+                    for a_ in x.names:
+                        visible.add((a_.asname or a_.name).split(".")[0])
+        for x in ast.walk(fn.node):  # nested defs, imports, comprehension / lambda / except bindings inside the function
+            if isinstance(x, (ast.FunctionDef, ast.AsyncFunctionDef, ast.ClassDef)):
+                visible.add(x.name)
+                if not isinstance(x, ast.ClassDef):
+                    visible |= {a_.arg for a_ in x.args.args + x.args.kwonlyargs + x.args.posonlyargs} | ({x.args.vararg.arg} if x.args.vararg else set()) | ({x.args.kwarg.arg} if x.args.kwarg else set())
+            elif isinstance(x, ast.Lambda):
+                visible |= {a_.arg for a_ in x.args.args}
+            elif isinstance(x, (ast.Import, ast.ImportFrom)):
+                for a_ in x.names:
+                    visible.add((a_.asname or a_.name).split(".")[0])
+            elif isinstance(x, ast.Name) and isinstance(x.ctx, (ast.Store, ast.Del)):
+                visible.add(x.id)
+            elif isinstance(x, ast.ExceptHandler) and x.name:
+                visible.add(x.name)
+            elif isinstance(x, (ast.Global, ast.Nonlocal)):
+                visible |= set(x.names)
+        pf = fn.parent_fn
+        while pf is not None:
+            for x in ast.walk(pf.node):
+                if isinstance(x, ast.Name) and isinstance(x.ctx, ast.Store):
+                    visible.add(x.id)
+                elif isinstance(x, (ast.FunctionDef, ast.ClassDef)):
+                    visible.add(x.name)
+                elif isinstance(x, ast.arg):
+                    visible.add(x.arg)
+                elif isinstance(x, (ast.Import, ast.ImportFrom)):
+                    for a_ in x.names:
+                        visible.add((a_.asname or a_.name).split(".")[0])
+            pf = pf.parent_fn
+        for e in A.walk_no_nested(fn.node):
+            if isinstance(e, ast.Name) and isinstance(e.ctx, ast.Load) and e.id not in visible and e.id not in flagged:
+                flagged.add(e.id)
+                out.append(bad("USE-1", fn.qualname, f"read of {e.id}", ctx.where(fn, e), f"'{e.id}' is read at line {A.lineno(e)} but is bound nowhere (not in this function, an enclosing one, the module or the builtins): NameError when the line runs"))
         for z in cfg.nodes:
             if z.stmt is None:
                 continue
-            for e in z.walk():
-                if not (isinstance(e, ast.Name) and isinstance(e.ctx, ast.Load) and e.id in locals_):
+            reads = [e for e in z.walk() if isinstance(e, ast.Name) and isinstance(e.ctx, ast.Load)]
+            if isinstance(z.stmt, ast.AugAssign) and isinstance(z.stmt.target, ast.Name):
+                reads.append(z.stmt.target)  # `x += 1` reads x
+            for e in reads:
+                if e.id not in locals_:
                     continue
                 if e.id in flagged:
                     continue
@@ -787,4 +835,100 @@ def attr1(ctx) -> List[Ob]:
                 out.append(bad("ATTR-1", fn.qualname, key, ctx.where(fn, e), f"'{A.unparse(e)}': {', '.join(sorted(missing))} has no member '{e.attr}' (the value is a {T.show(t)} here): AttributeError at run time"))
             else:
                 out.append(ok("ATTR-1", fn.qualname, key, ctx.where(fn, e), f"{T.show(t)} defines {e.attr}", nontrivial=False))
+    return out
+
+
+@rule("INIT-1", 1, "an instance attribute that __init__ does not set is assigned, on every path, before a method that reads it is called (receiver-class specific: calls on self are resolved in the class of the entry method)")
+def init1(ctx) -> List[Ob]:
+    out: List[Ob] = []
+    prog = ctx.prog
+
+    def self_stores(m):
+        return {t.attr for s in ast.walk(m.node) for t in ((s.targets if isinstance(s, ast.Assign) else [s.target]) if isinstance(s, (ast.Assign, ast.AnnAssign, ast.AugAssign)) and not (isinstance(s, ast.AnnAssign) and s.value is None) else []) for t in ast.walk(t) if isinstance(t, ast.Attribute) and isinstance(t.value, ast.Name) and t.value.id == "self" and isinstance(t.ctx, ast.Store)}
+
+    def self_loads(m):
+        return {a.attr for a in ast.walk(m.node) if isinstance(a, ast.Attribute) and isinstance(a.value, ast.Name) and a.value.id == "self" and isinstance(a.ctx, ast.Load)}
+
+    for C in prog.all_classes():
+        if C.parent_fn is not None:
+            continue
+        mro = C.mro()
+        methods = {}
+        for k in reversed(mro):
+            methods.update(k.methods)
+        if not methods:
+            continue
+        always = set()
+        for k in mro:
+            always |= {f.name for f in k.own_fields}
+            for st in k.node.body:
+                if isinstance(st, ast.Assign):
+                    always |= {t.id for t in st.targets if isinstance(t, ast.Name)}
+                elif isinstance(st, ast.AnnAssign) and isinstance(st.target, ast.Name) and st.value is not None:
+                    always.add(st.target.id)
+        init = methods.get("__init__")
+        post = methods.get("__post_init__")
+        for im in (init, post):
+            if im is not None:
+                always |= self_stores(im)
+        late = {}
+        for mn, m in methods.items():
+            for a in self_stores(m):
+                if a not in always and a not in methods:
+                    late.setdefault(a, set()).add(mn)
+        if not late:
+            continue
+        # transitive readers (through calls on self, resolved in C)
+        def callees(m):
+            return {c.func.attr for c in ast.walk(m.node) if isinstance(c, ast.Call) and isinstance(c.func, ast.Attribute) and isinstance(c.func.value, ast.Name) and c.func.value.id == "self" and c.func.attr in methods}
+
+        for attr, setters in sorted(late.items()):
+            reads = {mn for mn, m in methods.items() if attr in self_loads(m) and attr not in self_stores(m)}
+            if not reads:
+                continue
+            changed = True
+            trans = set(reads)
+            while changed:
+                changed = False
+                for mn, m in methods.items():
+                    if mn not in trans and mn not in setters and callees(m) & trans:
+                        trans.add(mn)
+                        changed = True
+            called = set()
+            for mn, m in methods.items():
+                called |= callees(m)
+            roots = [mn for mn in trans if mn not in called or mn == "__init__"]
+            for rn in sorted(roots):
+                rm = methods[rn]
+                if rn in reads and rn not in called:
+                    continue  # reads it directly as its own precondition: nothing to order inside this class
+                cfg = ctx.cfg(rm)
+                set_nodes = []
+                use_nodes = []
+                for z in cfg.nodes:
+                    if z.stmt is None:
+                        continue
+                    for e in z.walk():
+                        if isinstance(e, ast.Call) and isinstance(e.func, ast.Attribute) and isinstance(e.func.value, ast.Name) and e.func.value.id == "self":
+                            if e.func.attr in setters:
+                                set_nodes.append(z)
+                            elif e.func.attr in trans:
+                                use_nodes.append((z, e.func.attr))
+                        if isinstance(e, ast.Attribute) and isinstance(e.value, ast.Name) and e.value.id == "self" and e.attr == attr and isinstance(e.ctx, ast.Store):
+                            set_nodes.append(z)
+                key = f"{C.name}.{attr} set before {rn} uses it"
+                where = ctx.where(rm)
+                if not use_nodes:
+                    continue
+                badu = None
+                for z, callee in use_nodes:
+                    if z in set_nodes:
+                        continue
+                    if z in cfg.reachable(cfg.entry, avoid=lambda y: y in set_nodes):
+                        badu = (z, callee)
+                        break
+                if badu is None:
+                    out.append(ok("INIT-1", rm.qualname, key, where, f"every call that reads self.{attr} ({sorted({c for _z, c in use_nodes})}) is preceded by {sorted(setters)}"))
+                else:
+                    out.append(bad("INIT-1", rm.qualname, key, ctx.where(rm, badu[0].stmt), f"self.{badu[1]}(...) reads self.{attr} (directly or through the methods it calls), which only {sorted(setters)} assign, but it can be reached without that assignment: AttributeError"))
     return out
